@@ -400,9 +400,9 @@ Qed.
 Lemma deal_col_spec : forall d (s : F) rnd c, deal_col d s rnd = Some c -> length c = d /\ hd0 K c = s /\ tl c = tl rnd /\ (0 < d)%nat.
 Proof.
   intros d s rnd c H. unfold deal_col in H.
-  destruct (Nat.eqb (length rnd) d && Nat.ltb 0 d) eqn:E; [|discriminate].
+  destruct (Nat.eqb (length rnd) d && Nat.leb 2 d) eqn:E; [|discriminate].
   inversion H; subst. apply andb_true_iff in E. destruct E as [E1 E2].
-  apply Nat.eqb_eq in E1. apply Nat.ltb_lt in E2. destruct rnd; cbn in *; [lia|]. repeat split; auto.
+  apply Nat.eqb_eq in E1. apply Nat.leb_le in E2. destruct rnd; cbn in *; [lia|]. repeat split; auto. lia.
 Qed.
 
 (* ---- a sum with one key moved to the front ------------------------------------------------- *)
@@ -970,12 +970,12 @@ Proof. induction a as [|[i x] a IH]; cbn; [reflexivity|]. now rewrite N.eqb_refl
 Lemma sharing_eqb_refl : forall sh : SH, sharing_eqb K sh sh = true.
 Proof. intro sh. unfold sharing_eqb. now rewrite Nat.eqb_refl, tab_eqb_refl. Qed.
 
-Lemma hjky_cols_complete : forall (zs : SH) rnds, (0 < sh_dim zs)%nat ->
+Lemma hjky_cols_complete : forall (zs : SH) rnds, (2 <= sh_dim zs)%nat ->
   (forall e, In e rnds -> length (snd e) = sh_dim zs) -> exists zc, hjky_cols K zs rnds = Some zc.
 Proof.
   induction rnds as [|[j rnd] t IH]; intros Hd H; cbn; [eauto|].
   unfold hjky_round1, deal_col. pose proof (H (j, rnd) (or_introl eq_refl)) as Hl. simpl in Hl.
-  rewrite Hl, Nat.eqb_refl. apply Nat.ltb_lt in Hd as Hd'. rewrite Hd'. cbn [andb].
+  rewrite Hl, Nat.eqb_refl. apply Nat.leb_le in Hd as Hd'. rewrite Hd'. cbn [andb].
   destruct IH as [zc Hz]; [assumption|intros; apply H; now right|]. rewrite Hz. eauto.
 Qed.
 
@@ -1083,9 +1083,10 @@ Theorem redist_run_complete : forall (w : WORLD) (ns : SH) (a : step_args) s lam
   coefs_checked K solve (w_sh w) (sa_Q a) = Some lam -> coefs_checked K solve (sa_zs a) (sa_Q a) = Some lamz ->
   (forall e, In e (sa_rnd1 a) -> length (snd e) = sh_dim (sa_zs a)) ->
   (forall e, In e (sa_rnd2 a) -> length (snd e) = sh_dim ns) ->
+  (2 <= sh_dim (sa_zs a))%nat -> (2 <= sh_dim ns)%nat ->
   exists w', redist_run K solve w ns a = Some w'.
 Proof.
-  intros w ns a s lam lamz G PC EL ELZ L1 L2. unfold redist_run. rewrite PC. cbn [negb].
+  intros w ns a s lam lamz G PC EL ELZ L1 L2 D2z D2n. unfold redist_run. rewrite PC. cbn [negb].
   unfold precheck in PC. do 9 (apply andb_true_iff in PC; destruct PC as [PC ?]).
   rename PC into Wns.
   match goal with X : wf_sharing_b (sa_zs a) = true |- _ => rename X into Wzs end.
@@ -1102,7 +1103,7 @@ Proof.
   destruct G as [GW [GL [G0 [Gpk Gs]]]].
   assert (G : good w s) by (unfold good; repeat split; assumption).
   (* the zero sharing *)
-  destruct (hjky_cols_complete zs (sa_rnd1 a) (wf_dim_pos _ Wzs) L1) as [zc EZ]. rewrite EZ.
+  destruct (hjky_cols_complete zs (sa_rnd1 a) D2z L1) as [zc EZ]. rewrite EZ.
   destruct (hjky_cols_spec _ _ _ EZ) as [MZ PZ]. rewrite R1 in MZ.
   assert (NDZ : NoDup (map fst zc)) by now rewrite MZ.
   set (Z := vsum K (sh_dim zs) (map snd zc)).
@@ -1128,7 +1129,7 @@ Proof.
     unfold deal_col. unfold rnd_of.
     destruct (lookup_map_fst (sa_rnd2 a) j) as [rnd Lr]; [now rewrite R2|]. rewrite Lr.
     pose proof (L2 (j, rnd) (lookup_In _ _ _ Lr)) as Hl2. simpl in Hl2. rewrite Hl2, Nat.eqb_refl.
-    pose proof (wf_dim_pos _ Wns) as Hd. apply Nat.ltb_lt in Hd. rewrite Hd. cbn [andb]. eauto. }
+    apply Nat.leb_le in D2n as Hd. rewrite Hd. cbn [andb]. eauto. }
   rewrite ECOLS.
   destruct (all_some_spec _ _ _ ECOLS) as [MC PC].
   set (zshf := fun j : N => match lookup j zres with Some z => fst z | None => [] end).
